@@ -138,6 +138,18 @@ var Kinds = []*Kind{
 	{ID: "seq-int", Type: "fp.Seq[int]", Imports: []string{fpImp}, Vals: simple("fp.Seq[int]{%[1]d}", "fp.Seq[int](nil)"), Omit: "ambig", JEmpty: [2]bool{false, true}, JWrong: `5`},
 	{ID: "named-slice", Type: "mylist", Vals: simple("mylist{%[1]d}", "mylist(nil)"), Omit: "ambig", JEmpty: [2]bool{false, true}, JWrong: `5`},
 	{ID: "ptr-struct", Type: "*Pub", Vals: simple("&Pub{X: %[1]d}", "(*Pub)(nil)"), Omit: "yes", JEmpty: [2]bool{false, true}, JWrong: `5`},
+	// the predeclared interface type error (a *types.Named without a package)
+	{ID: "error", Type: "error", Vals: func(i int, e Env) [2]string {
+		return [2]string{fmt.Sprintf("error(err%c)", 'A'+i%2), "error(nil)"}
+	}, Omit: "ambig", JEmpty: [2]bool{false, true}, JLossy: [2]bool{true, false}, JWrong: `5`},
+	{ID: "opt-error", Type: "fp.Option[error]", Imports: []string{fpImp}, Vals: func(i int, e Env) [2]string {
+		return [2]string{fmt.Sprintf("option.Some[error](err%c)", 'A'+i%2), "option.None[error]()"}
+	}, Opt: true, OptElem: func(Env) string { return "error" }, OptVals: func(i int, e Env) [2]string {
+		return [2]string{fmt.Sprintf("error(err%c)", 'A'+i%2), fmt.Sprintf("error(err%c)", 'B'-i%2)}
+	}, Omit: "yes", JLossy: [2]bool{true, false}, JWrong: `5`},
+	{ID: "slice-error", Type: "[]error", Vals: func(i int, e Env) [2]string {
+		return [2]string{fmt.Sprintf("[]error{err%c}", 'A'+i%2), "[]error(nil)"}
+	}, Omit: "yes", JEmpty: [2]bool{false, true}, JLossy: [2]bool{true, false}, JWrong: `5`},
 }
 
 // EmbKinds are the embedded-field forms.
@@ -154,6 +166,7 @@ var EmbKinds = []*Kind{
 	{ID: "Empty", Type: "Empty", Emb: true, EmbName: "Empty", NoApply: true, Vals: simple("Empty{}", "Empty{}"), JWrong: `5`},
 	{ID: "myint", Type: "myint", Emb: true, EmbName: "myint", Vals: simple("myint(%[1]d)", "myint(0)"), JLossy: [2]bool{true, false}, JWrong: `"zz"`},
 	{ID: "ptr-myint", Type: "*myint", Emb: true, EmbName: "myint", Vals: simple("pmyint(%[1]d)", "(*myint)(nil)"), JLossy: [2]bool{true, false}, JWrong: `"zz"`},
+	{ID: "error", Type: "error", Emb: true, EmbName: "error", Vals: simple("error(errA)", "error(nil)"), JLossy: [2]bool{true, false}, JWrong: `5`},
 	{ID: "Box-int", Type: "Box[int]", Emb: true, EmbName: "Box", Vals: simple("Box[int]{V: %[1]d}", "Box[int]{}"), JWrong: `5`},
 	{ID: "Box-T", Type: "Box[T]", TP: []string{"T"}, Emb: true, EmbName: "Box", Vals: func(i int, e Env) [2]string {
 		return [2]string{fmt.Sprintf("Box[%s]{V: %s}", e.t("T").Type, e.t("T").Val(n1(i))), fmt.Sprintf("Box[%s]{}", e.t("T").Type)}
@@ -249,7 +262,7 @@ func ComboForms() []Form {
 	k := kindByID
 	return []Form{
 		{"priv", k("int")}, {"pub", k("int")}, {"priv", k("opt-int")}, {"pub", k("opt-int")}, {"priv", k("opt-slice")},
-		{"priv", k("ptr-int")}, {"priv", k("slice-string")}, {"priv", k("T")}, {"priv", k("opt-T")}, {"emb", k("emb.Pub")},
+		{"priv", k("ptr-int")}, {"priv", k("slice-string")}, {"priv", k("T")}, {"priv", k("opt-T")}, {"emb", k("emb.Pub")}, {"priv", k("error")},
 	}
 }
 
